@@ -934,7 +934,7 @@ pub fn run(ctx: &mut Ctx) -> Result<(), Violation> {
     });
     ctx.stage("r2-all-puzzles-with-few-givens", true, r)?;
 
-    let cases = ctx.tier.pick(1_000, 40_000);
+    let cases = ctx.tier.cases(1_000, 40_000);
     let r = par_random(ctx, "random-puzzles", cases, 200, |tape, st| {
         let mut t = Tape::new(tape);
         let c = gen_case(&mut t, true);
